@@ -9,7 +9,7 @@
 
 mod comb;
 mod core;
-#[cfg(feature = "cfg-alloc")]
+#[cfg(feature = "co")]
 mod costream;
 #[cfg(feature = "cfg-alloc")]
 mod groups;
@@ -957,7 +957,7 @@ fn run_group(rng: &mut Rng, stream: bool, id: &str, prof: &Profile) {
 }
 
 /// scripts of a co-stream case: source (child 0) and one work future per (item, closure stage)
-#[cfg(feature = "cfg-alloc")]
+#[cfg(feature = "co")]
 fn gen_co_scripts(rng: &mut Rng, term: &str, shape: &str, items: usize, prof: &Profile) -> Vec<Vec<Step>> {
     use crate::costream::*;
     let stages = stages_of(term, shape);
@@ -1006,7 +1006,7 @@ fn gen_co_scripts(rng: &mut Rng, term: &str, shape: &str, items: usize, prof: &P
     scripts
 }
 
-#[cfg(feature = "cfg-alloc")]
+#[cfg(feature = "co")]
 fn run_co(rng: &mut Rng, id: &str, prof: &Profile) {
     use crate::costream::*;
     reset();
@@ -1104,7 +1104,7 @@ fn run_co(rng: &mut Rng, id: &str, prof: &Profile) {
     reset();
 }
 
-#[cfg(feature = "cfg-alloc")]
+#[cfg(feature = "co")]
 fn replay_co(header: &str, scripts: &[(usize, Vec<Step>)], ops: &[String]) {
     use crate::costream::*;
     reset();
@@ -1403,7 +1403,7 @@ fn replay() {
 
 fn replay_one(header: &str, scripts: &[(usize, Vec<Step>)], ops: &[String]) {
     if header.split_whitespace().nth(2) == Some("co") {
-        #[cfg(feature = "cfg-alloc")]
+        #[cfg(feature = "co")]
         replay_co(header, scripts, ops);
         return;
     }
@@ -1613,7 +1613,7 @@ fn main() {
                 run_group(&mut rng, fam == "sgroup", &id, &prof);
             }
             "co" => {
-                #[cfg(feature = "cfg-alloc")]
+                #[cfg(feature = "co")]
                 run_co(&mut rng, &id, &prof);
             }
             "nest" => {
